@@ -171,6 +171,33 @@ Definition on_server (w : rworld) (f : server -> pres (server * tree)) : rworld 
 
 Definition st (c : conn) : tree := t_status (c_status c).
 
+(* verification hook RenetClient::verif_warp: the counters of a connection that has exchanged nothing yet are
+   moved forward (packet sequence, message ids of every channel) *)
+Definition warp_sr (id : N) (s : send_rel) : send_rel :=
+  match sr_unacked s with
+  | [] => {| sr_ch := sr_ch s; sr_unacked := []; sr_next_id := id; sr_resend := sr_resend s; sr_max := sr_max s; sr_mem := sr_mem s |}
+  | _ => s
+  end.
+Definition warp_su (id : N) (s : send_unrel) : send_unrel :=
+  {| su_ch := su_ch s; su_queue := su_queue s; su_sliced_id := id; su_max := su_max s; su_mem := su_mem s |}.
+Definition warp_rr (id : N) (r : recv_rel) : recv_rel :=
+  match rr_messages r, rr_slices r with
+  | [], [] => {| rr_slices := []; rr_messages := []; rr_oldest := id;
+                 rr_order := match rr_order r with Unordered _ [] => Unordered id [] | o => o end;
+                 rr_mem := rr_mem r; rr_max := rr_max r |}
+  | _, _ => r
+  end.
+Definition warp (c : conn) (seq id : N) : conn :=
+  match c_sent c, c_acks c with
+  | [], [] =>
+      {| c_seq := seq; c_now := c_now c; c_sent := []; c_acks := []; c_order := c_order c;
+         c_su := map (fun e => (fst e, warp_su id (snd e))) (c_su c); c_ru := c_ru c;
+         c_sr := map (fun e => (fst e, warp_sr id (snd e))) (c_sr c);
+         c_rr := map (fun e => (fst e, warp_rr id (snd e))) (c_rr c);
+         c_budget := c_budget c; c_status := c_status c |}
+  | _, _ => c
+  end.
+
 (* ---------- one step ---------- *)
 Definition rstep (w : rworld) (op : tree) : rworld * tree :=
   match op with
@@ -224,6 +251,12 @@ Definition rstep (w : rworld) (op : tree) : rworld * tree :=
       match d_ep e with Some e => on_conn w e (fun c => let c' := disconnect c in Ok (c', st c')) | None => (w, T_BAD_OP) end
   | TL [TN 13; e] =>
       match d_ep e with Some e => on_conn w e (fun c => let c' := disconnect_transport c in Ok (c', st c')) | None => (w, T_BAD_OP) end
+  | TL [TN 14; e; TN seq; TN id] =>
+      match d_ep e with
+      | Some (EConn k) => on_conn w (EConn k) (fun c => Ok (warp c seq id, TL []))
+      | Some (ESrv _) => (w, T_UNRESOLVED)
+      | None => (w, T_BAD_OP)
+      end
   | TL [TN 30; e; TN ch] =>
       match d_ep e with
       | Some e => on_conn w e (fun c => do n <- channel_available_memory c ch; Ok (c, TN n))
